@@ -12,6 +12,8 @@
              have, with deviations at 1/2 ... 2 times the tolerance itself      graders F, M, N
      "cans"  constant answers ('2', '2*pi/pi') in graders that have a variable: the student's formula uses the
              variable and agrees with the answer on part of the scripted samples only      graders F, M
+     "fun"   the sampled value is carried by a user function drawn anew at every sample (answer 'f(1)', student
+             formulas over f(1) that mention no variable at all, or f(1) + d with a scripted variable d)   graders F, M
      "rw"    answer trees and their rewrites (commutation, distribution, +0, *1, ...) with and without an offset
    Level 1 = quick bounds, 2 = thorough bounds.
    Two-level enumeration: Init picks a seed (grader, tolerance, samples, failable_evals), Next picks the case. *)
@@ -168,7 +170,13 @@ FormsCans(s) == LET k == s.ans.k IN
 SeedsCans == {SeedRecA("cans", "F", "s", t, nf, a) : t \in TolsCans, nf \in NFCans, a \in AnsCans}
              \cup {SeedRecA("cans", "M", "s", AbsTol(Q(1, 10)), nf, ConstAns(R(2, 1), "lit")) : nf \in NFCans}
 
+(* ---- part "fun": per-sample-drawn functions carry the sampled value *)
+SeedsFun == {SeedRecA("fun", "F", "s", t, nf, IdfAns) : t \in {AbsTol(Zero), PctTol(I(50)), PctTol(Q(1, 100))},
+                                                        nf \in (IF Level = 1 THEN {<<1, 0>>, <<2, 0>>, <<2, 1>>, <<3, 1>>} ELSE NFsmall)}
+            \cup {SeedRecA("fun", "M", "s", AbsTol(Q(1, 2)), nf, IdfAns) : nf \in {<<2, 0>>}}
+
 Seeds == (IF "real" \in Parts THEN SeedsReal ELSE {}) \cup (IF "fine" \in Parts THEN SeedsFine ELSE {})
+         \cup (IF "fun" \in Parts THEN SeedsFun ELSE {})
          \cup (IF "cans" \in Parts THEN SeedsCans ELSE {}) \cup (IF "cx" \in Parts THEN SeedsCx ELSE {})
          \cup (IF "arr" \in Parts THEN SeedsArr ELSE {}) \cup (IF "inf" \in Parts THEN SeedsInf ELSE {})
          \cup (IF "rw" \in Parts THEN SeedsRw ELSE {})
@@ -184,14 +192,14 @@ XReal3 == {R(-2, 1), R(1, 2), R(4, 1)}
 XCx3 == {C(1, 1, 2, 1), C(-1, 2, 0, 1), C(0, 1, -3, 4)}
 XMat3 == {Mat(2, 2, <<I(3), Zero, Zero, I(4)>>), Mat(2, 2, <<Zero, I(1), Zero, Zero>>), Mat(2, 2, <<I(1), I(2), I(2), I(-1)>>)}
 XVec3s == {Vec(<<I(3), I(4)>>), Vec(<<I(-1), Q(1, 2)>>), Z2}
-ScriptsOf(s) == CASE s.part = "real" -> Scripts(s.n, XReal, XReal3)
+ScriptsOf(s) == CASE s.part \in {"real", "fun"} -> Scripts(s.n, XReal, XReal3)
                   [] s.part = "cx" -> Scripts(s.n, XCx, XCx3)
                   [] s.part = "arr" -> (IF s.sub = "mat" THEN Scripts(s.n, XMat, XMat3)
                                         ELSE IF s.sub = "vec" THEN Scripts(s.n, XVec, XVec3s) ELSE AllSeq(s.n, XVec3))
                   [] s.part = "inf" -> AllSeq(s.n, XInf)
                   [] s.part = "fine" -> (IF s.n <= 2 THEN AllSeq(s.n, XFine(s.sub)) ELSE Pat3(XFine(s.sub)))
                   [] s.part = "cans" -> Scripts(s.n, XCans, XCans3)
-FormsOf(s) == CASE s.part = "real" -> FormsReal(s.n)
+FormsOf(s) == CASE s.part \in {"real", "fun"} -> FormsReal(s.n)
                 [] s.part = "cx" -> FormsCx(s.n)
                 [] s.part = "arr" -> (IF s.sub = "mat" THEN FormsMat(s.n) ELSE IF s.sub = "vec" THEN FormsVec(s.n) ELSE FormsVec3(s.n))
                 [] s.part = "inf" -> FormsInf(s.n)
@@ -292,6 +300,7 @@ InvConstAnswerAllSamples == IsLawCase /\ c.ans.form = "const"
                               => out.fails = Cardinality({i \in 1..c.n : ~Within(c.ans.k, Ss[i], c.tol)})
 InvMulShortcut == IsLawCase /\ c.ans.form = "id" /\ c.fp.form = "mul" /\ c.tol.v[2] <= 100
                     => \A i \in 1..c.n : RealPart(c.fp.par[i])[2] <= 100 => LawMulShortcut(c.xs[i], RealPart(c.fp.par[i]), c.tol)
+InvCarrierIrrelevant == IsForm /\ c.ans.form = "idf" => LawCarrierIrrelevant(c.xs, c.fp.form, c.fp.par, c.tol, c.n, c.failable, c.credit)
 InvFailableMonotone == IsCase => LawFailableMonotone(out.fails, c.n, c.failable)
 InvAllMiss == IsCase => LawAllMiss(c.n, c.failable) /\ LawNoMiss(c.n, c.failable) /\ LawSingleSample(out.fails, c.failable)
 InvAllMissRejected == IsCase /\ out.fails = c.n /\ c.failable < c.n => out.allowed = {"reject"}
